@@ -58,17 +58,17 @@ structure ResAll where
   deriving Repr
 
 mutual
-def classify (ctx : List String) : Node → Res
+def classify (sf : Bool) (ctx : List String) : Node → Res
   | .mk kind lab names ch =>
     match kind with
-    | .lambda => { ext := false, const := false, exts := classifyBody (names ++ ctx) ch }
+    | .lambda => { ext := false, const := false, exts := classifyBody sf (names ++ ctx) ch }
     | _ =>
-      let r := classifyAll ctx ch
+      let r := classifyAll sf ctx ch
       let own : Option Bool × Bool :=      -- what the post-method sets: (external, constant)
         match kind with
         | .nameLoad => (if names.any (fun n => ctx.contains n) then none else some true, false)
         | .const => (some true, true)
-        | .starred => (some true, false)
+        | .starred => (if sf then some true else none, false)   -- `sf`: postStarred sets `external = True` unconditionally
         | .listD => (some r.all, false)
         | .dictD => (some r.all, false)
         | .slice => if ch.isNil then (some true, true) else (none, false)
@@ -81,18 +81,18 @@ def classify (ctx : List String) : Node → Res
         { ext := true, const := false,
           exts := (r.exts.filter (fun m => !ch.labs.contains m.lab)) ++ [{ lab := lab, demote := nonExternalizable kind, promo := r.promo }] }
       else { ext := ext, const := own.2, exts := r.exts }
-def classifyAll (ctx : List String) : Nodes → ResAll
+def classifyAll (sf : Bool) (ctx : List String) : Nodes → ResAll
   | .nil => { all := true, firstConst := false, exts := [], promo := [] }
   | .cons n t =>
-    let a := classify ctx n
-    let b := classifyAll ctx t
+    let a := classify sf ctx n
+    let b := classifyAll sf ctx t
     { all := a.ext && b.all, firstConst := a.const, exts := a.exts ++ b.exts,
       promo := (if a.ext && !a.const then [n.lab] else []) ++ b.promo }
 /-- a Lambda visits only its body (the last child; defaults are never dispatched) -/
-def classifyBody (ctx : List String) : Nodes → List Member
+def classifyBody (sf : Bool) (ctx : List String) : Nodes → List Member
   | .nil => []
-  | .cons n .nil => (classify ctx n).exts
-  | .cons _ t => classifyBody ctx t
+  | .cons n .nil => (classify sf ctx n).exts
+  | .cons _ t => classifyBody sf ctx t
 end
 
 /-- the demotion pass of `PreTranslator.__init__` (one pass) -/
@@ -100,6 +100,6 @@ def finalOf (m : Member) : List Nat := if m.demote then m.promo else [m.lab]
 def final (E : List Member) : List Nat := E.flatMap finalOf
 
 /-- `PreTranslator(tree, …).externals` as labels -/
-def externals (ctx : List String) (t : Node) : List Nat := final (classify ctx t).exts
+def externals (sf : Bool) (ctx : List String) (t : Node) : List Nat := final (classify sf ctx t).exts
 
 end PonyVerif.Model.PreTrans
